@@ -48,17 +48,17 @@ theorem dep_false (q : List QItem) :
 /-- **Exact accounting** over a run, per link: the initial queue followed by the arrival log splits,
 in order, into the departed items (each flagged: put on the wire / discarded) followed by the final
 queue; the wire log is exactly the departed items flagged "wire", in order, byte for byte. -/
-theorem run_accounting (s : Sys F) (h : Inv s) (evs : List Ev) (i : Nat) (hi : i < s.links.length) :
+theorem run_accounting (s : Sys F) (h : Inv s) (evs : List Ev) (hnr : NoReload evs) (i : Nat) (hi : i < s.links.length) :
     ∃ dep : List (QItem × Bool),
       queueOf s i ++ arrivals s evs i = dep.map (·.1) ++ queueOf (run s evs).1 i ∧
       wireLog s evs i = bytesOf ((dep.filter (·.2)).map (·.1)) := by
   induction evs generalizing s with
   | nil => exact ⟨[], by simp [arrivals, run], by simp [wireLog]⟩
   | cons ev evs ih =>
-    obtain ⟨h1, h2⟩ := step_link s ev h.nodup
+    obtain ⟨h1, h2⟩ := step_link s ev h.nodup hnr.head
     have hl : s.links[i]? = some s.links[i] := List.getElem?_eq_getElem hi
     obtain ⟨l', g1, g2, -, -⟩ := h2 i _ hl
-    obtain ⟨dep1, d1, d2⟩ := ih (step s ev).1 (h.step ev) (by omega)
+    obtain ⟨dep1, d1, d2⟩ := ih (step s ev).1 (h.step ev hnr.head) hnr.tail (by omega)
     rw [queueOf_of_get g1] at d1
     simp only [arrivals, wireLog, run, queueOf_of_get hl, connIdOf_of_get hl]
     rcases g2.2 with g | g | g
@@ -89,10 +89,10 @@ theorem arrivals_sublist (s : Sys F) (evs : List Ev) (i : Nat) : (arrivals s evs
 
 /-- **Intact, in order, at most once per link**: the wire log of a link followed by its final queue
 is a subsequence of its initial queue followed by the client datagrams of the run. -/
-theorem run_sublist (s : Sys F) (h : Inv s) (evs : List Ev) (i : Nat) (hi : i < s.links.length) :
+theorem run_sublist (s : Sys F) (h : Inv s) (evs : List Ev) (hnr : NoReload evs) (i : Nat) (hi : i < s.links.length) :
     (wireLog s evs i ++ bytesOf (queueOf (run s evs).1 i)).Sublist
       (bytesOf (queueOf s i) ++ bytesOf (clientItems evs)) := by
-  obtain ⟨dep, d1, d2⟩ := run_accounting s h evs i hi
+  obtain ⟨dep, d1, d2⟩ := run_accounting s h evs hnr i hi
   have e1 : bytesOf (queueOf s i) ++ bytesOf (arrivals s evs i) =
       bytesOf (dep.map (·.1)) ++ bytesOf (queueOf (run s evs).1 i) := by
     rw [← bytesOf_append, d1, bytesOf_append]
@@ -111,15 +111,16 @@ theorem run_sublist (s : Sys F) (h : Inv s) (evs : List Ev) (i : Nat) (hi : i < 
 def probeCounterOf (s : Sys F) (i : Nat) : Nat := (s.links[i]?.map (·.probeCounter)).getD 0
 
 /-- **Probe rate** over a run. -/
-theorem run_probe_rate (s : Sys F) (hnd : (ids s.links).Nodup) (evs : List Ev) (i : Nat) (hi : i < s.links.length) :
+theorem run_probe_rate (s : Sys F) (hnd : (ids s.links).Nodup) (evs : List Ev) (hnr : NoReload evs) (i : Nat)
+    (hi : i < s.links.length) :
     100 * probeCopies s evs i + probeCounterOf (run s evs).1 i ≤ gatedRouted s evs i + probeCounterOf s i := by
   induction evs generalizing s with
   | nil => simp [probeCopies, gatedRouted, run]
   | cons ev evs ih =>
-    obtain ⟨h1, h2⟩ := step_link s ev hnd
+    obtain ⟨h1, h2⟩ := step_link s ev hnd hnr.head
     have hl : s.links[i]? = some s.links[i] := List.getElem?_eq_getElem hi
     obtain ⟨l', g1, -, g3, -⟩ := h2 i _ hl
-    have := ih (step s ev).1 (by rw [step_ids s ev hnd]; exact hnd) (by omega)
+    have := ih (step s ev).1 (by rw [step_ids s ev hnd hnr.head]; exact hnd) hnr.tail (by omega)
     have hp' : probeCounterOf (step s ev).1 i = l'.probeCounter := by simp [probeCounterOf, g1]
     have hp : probeCounterOf s i = s.links[i].probeCounter := by simp [probeCounterOf, hl]
     simp only [probeCopies, gatedRouted, run, hl, Option.map_some, Option.getD_some]
